@@ -164,7 +164,7 @@ Fixpoint sink_put_chunk_loop (fuel : nat) (k : snk) (n : N) (xs : list N) : opti
 (* sink_put_chunk(sink, buf, n): xs = the n octets at buf *)
 Definition sink_put_chunk (k : snk) (xs : list N) (n : N) : option (dres * snk) :=
   if (n =? 0) || (SSIZE_MAX <? n) then Some (DErr EINVAL, k)
-  else sink_put_chunk_loop (snk_fuel k (length xs)) k n xs.
+  else sink_put_chunk_loop (snk_fuel k (length xs)) k n (firstn (N.to_nat n) xs).
 
 Definition sink_put_chunk_atmost (k : snk) (xs : list N) : option (dres * snk) :=
   once_sink_put_chunk k xs.
@@ -174,3 +174,93 @@ Definition src_plain (octet : bool) (stream : list N) : src :=
   {| s_octet := octet; s_stream := stream; s_script := []; s_calls := 0 |}.
 Definition snk_plain (octet : bool) : snk :=
   {| k_octet := octet; k_got := []; k_script := []; k_calls := 0 |}.
+
+(* ---------------- source-to-sink plumbing (no getbuffer extension: the library provides none) ---------------- *)
+(* sts_cbc: one octet; the result is the sink's result *)
+Definition sts_cbc (s : src) (k : snk) : dres * src * snk :=
+  match source_get_octet s with
+  | (DErr e, _, s') => (DErr e, s', k)
+  | (DOk _, [], s') => (DErr (EOTHER 0), s', k)      (* driver returned 0: outside the modelled domain *)
+  | (DOk _, x :: _, s') => let '(r, k') := sink_put_octet k x in (r, s', k')
+  end.
+
+Fixpoint sts_n_cbc (n : nat) (total : N) (s : src) (k : snk) : dres * src * snk :=
+  match n with
+  | O => (DOk total, s, k)
+  | S m => match sts_cbc s k with
+           | (DErr e, s', k') => (DErr e, s', k')
+           | (DOk _, s', k') => sts_n_cbc m total s' k'
+           end
+  end.
+
+Fixpoint sts_drain_cbc (fuel : nat) (s : src) (k : snk) : option (dres * src * snk) :=
+  match fuel with
+  | O => None
+  | S f => match sts_cbc s k with
+           | (DErr e, s', k') => Some (DErr e, s', k')
+           | (DOk _, s', k') => sts_drain_cbc f s' k'
+           end
+  end.
+
+(* sts_atmost / sts_some without buffer extension = sts_cbc *)
+Definition sts_atmost (s : src) (k : snk) (n : N) := sts_cbc s k.
+
+(* sts_n without extension: loop over sts_cbc, counting what the sink reports *)
+Fixpoint sts_n_loop (fuel : nat) (total rest : N) (s : src) (k : snk) : option (dres * src * snk) :=
+  if rest =? 0 then Some (DOk total, s, k) else
+  match fuel with
+  | O => None
+  | S f => match sts_cbc s k with
+           | (DErr e, s', k') => Some (DErr e, s', k')
+           | (DOk c, s', k') => sts_n_loop f total (rest - c) s' k'
+           end
+  end.
+Definition sts_fuel (s : src) (k : snk) (n : N) : nat :=
+  S (length (s_script s) + length (k_script k) + N.to_nat (N.min n (N.of_nat (length (s_stream s)))) + 2).
+Definition sts_n (s : src) (k : snk) (n : N) := sts_n_loop (sts_fuel s k n) n n s k.
+Definition sts_drain (s : src) (k : snk) :=
+  sts_drain_cbc (sts_fuel s k (N.of_nat (length (s_stream s)))) s k.
+
+(* ---- with an auxiliary buffer: [asize] = size of its free region (the buffer is empty: used = offset = 0);
+   the scratch image [aux] records what was written into it *)
+Definition sts_some_aux (s : src) (k : snk) (aux : list N) (n : N) : option (dres * src * snk * list N) :=
+  (* n = octets asked from the source = free space (capped) *)
+  match once_source_get_chunk s n with
+  | None => None
+  | Some (DErr e, d, s') => Some (DErr e, s', k, blit aux 0 d)
+  | Some (DOk c, d, s') =>
+      match sink_put_chunk k d c with
+      | None => None
+      | Some (r, k') => Some (r, s', k', blit aux 0 d)
+      end
+  end.
+
+Definition sts_atmost_aux (s : src) (k : snk) (aux : list N) (n : N) :=
+  sts_some_aux s k aux (N.min n (N.of_nat (length aux))).
+
+Fixpoint sts_n_aux_loop (fuel : nat) (total rest : N) (s : src) (k : snk) (aux : list N)
+  : option (dres * src * snk * list N) :=
+  if rest =? 0 then Some (DOk total, s, k, aux) else
+  match fuel with
+  | O => None
+  | S f => match sts_atmost_aux s k aux rest with
+           | None => None
+           | Some (DErr e, s', k', aux') => Some (DErr e, s', k', aux')
+           | Some (DOk c, s', k', aux') => sts_n_aux_loop f total (rest - c) s' k' aux'
+           end
+  end.
+Definition sts_n_aux (s : src) (k : snk) (aux : list N) (n : N) :=
+  sts_n_aux_loop (sts_fuel s k n) n n s k aux.
+
+Fixpoint sts_drain_aux_loop (fuel : nat) (s : src) (k : snk) (aux : list N)
+  : option (dres * src * snk * list N) :=
+  match fuel with
+  | O => None
+  | S f => match sts_atmost_aux s k aux (N.of_nat (length aux)) with
+           | None => None
+           | Some (DErr e, s', k', aux') => Some (DErr e, s', k', aux')
+           | Some (DOk _, s', k', aux') => sts_drain_aux_loop f s' k' aux'
+           end
+  end.
+Definition sts_drain_aux (s : src) (k : snk) (aux : list N) :=
+  sts_drain_aux_loop (sts_fuel s k (N.of_nat (length (s_stream s)))) s k aux.
